@@ -121,8 +121,17 @@ func runC16(c *engine.Ctx) {
 				c.Decide(r2, key, ci.Instr.Pos(), closeOK, "topic closed after the final publish on every path", why)
 			}
 
-			// R3: drain loop (the extract site whose success region loops back to extract)
-			if loops {
+			// R3: drain loop: an extract site in the queue goroutine's own function is the shutdown drain
+			isRoot := false
+			for _, g := range m.fns {
+				engine.Instrs(g, func(in ssa.Instruction) {
+					if gi, ok := in.(*ssa.Go); ok && gi.Call.StaticCallee() == f {
+						isRoot = true
+					}
+				})
+			}
+			if loops || isRoot {
+				returns = returns || !loops
 				c.Decide(r3, engine.FuncName(f)+"|drain-until-empty", ci.Instr.Pos(), !returns,
 					"after each drained message control returns to the extract step; the loop ends only when extraction fails",
 					"the shutdown drain can stop after a successfully extracted message while builders may remain: their subscribers are never notified")
